@@ -40,7 +40,7 @@ func NewUnpackInfo(dst string, header *tar.Header) (UnpackInfo, error) {
 
 	// Check for paths outside our directory, they are forbidden
 	target := filepath.Clean(path)
-	if !strings.HasPrefix(target, dst) {
+	if !isWithin(filepath.Clean(dst), target) {
 		return UnpackInfo{}, errors.New("invalid filename, traversal with \"..\" outside of current directory")
 	}
 
@@ -88,6 +88,19 @@ func NewUnpackInfo(dst string, header *tar.Header) (UnpackInfo, error) {
 	}
 
 	return result, nil
+}
+
+// isWithin reports whether the cleaned path p is root itself or lies below it.
+// A plain string prefix test is not enough: "/a/dst-evil" has the prefix
+// "/a/dst" but is a sibling of it, not a descendant.
+func isWithin(root, p string) bool {
+	if p == root {
+		return true
+	}
+	if !strings.HasSuffix(root, string(filepath.Separator)) {
+		root += string(filepath.Separator)
+	}
+	return strings.HasPrefix(p, root)
 }
 
 // IsSymlink describes whether the file being unpacked is a symlink
